@@ -5,12 +5,13 @@ TYPES = ["A", "AAAA", "TXT", "NS"]
 
 
 def universe_scenarios(r, wd, n, depth_choices, families, protocols, expect_truth, nq=(2, 4), forwarding_p=0.0,
-                       glue="mixed", two_glue_p=0.3, partial_hints_p=0.0, fault_p=0.0):
+                       glue="mixed", two_glue_p=0.3, partial_hints_p=0.0, fault_p=0.0, mapped_p=0.0):
     unis = []
     for i in range(n):
         partial = r.random() < partial_hints_p
         u = rc.build_universe(r, depth=r.choice(depth_choices), nservers=r.choice([1, 2, 3]),
-                              families="dual" if partial else families, glue=glue, two_glue_p=two_glue_p, share_root=partial)
+                              families="dual" if partial else families, glue=glue, two_glue_p=two_glue_p, share_root=partial,
+                              mapped_p=mapped_p)
         u["partial"] = partial
         u["fwd"] = r.random() < forwarding_p
         unis.append(u)
